@@ -107,7 +107,7 @@ func findSelectorExprViolation(
 	// Check different types of objects
 	switch obj := obj.(type) {
 	case *types.TypeName:
-		return findTypeViolation(ctx, pkgPath, obj.Name(), expr.Pos())
+		return findTypeNameViolation(ctx, obj, expr.Pos())
 
 	case *types.Func:
 		if obj.Type() != nil && obj.Type().(*types.Signature).Recv() != nil {
@@ -141,7 +141,7 @@ func findIdentViolation(
 
 	switch obj := obj.(type) {
 	case *types.TypeName:
-		return findTypeViolation(ctx, ctx.currentPkgPath, obj.Name(), ident.Pos())
+		return findTypeNameViolation(ctx, obj, ident.Pos())
 
 	case *types.Func:
 		if obj.Type() != nil && obj.Type().(*types.Signature).Recv() != nil {
@@ -155,6 +155,26 @@ func findIdentViolation(
 	}
 
 	return nil
+}
+
+// findTypeNameViolation checks a reference to a type name; a type alias refers to the
+// defined type it denotes, wherever the alias itself is declared.
+func findTypeNameViolation(
+	ctx *packageOnlyContext,
+	obj *types.TypeName,
+	pos token.Pos,
+) *PackageOnlyViolation {
+	if obj.IsAlias() {
+		named, ok := types.Unalias(obj.Type()).(*types.Named)
+		if !ok || named.Obj().Pkg() == nil {
+			return nil
+		}
+		obj = named.Obj()
+	}
+	if obj.Pkg().Path() == ctx.currentPkgPath {
+		return nil // Usage within the same package is always allowed
+	}
+	return findTypeViolation(ctx, obj.Pkg().Path(), obj.Name(), pos)
 }
 
 // findTypeViolation checks if a type usage violates @packageonly restrictions
